@@ -41,19 +41,21 @@ func vfcfbULID(rng *rand.Rand, ms uint64) ulid.ULID {
 //   (ii)  fail-stop at the k-th mutating operation (that operation and every later operation of
 //         every view fail: nothing can touch the bucket any more, as after a crash),
 //   (iii) fail the r-th read of the views that are marked as fault views, once,
+//   (iv)  fail ONE mutating operation transiently (lost, or applied but reported as failed) or one read of the other views; later operations work,
 //   (v)   serve chosen LastModified attributes (or none, as providers without support do).
 // ---------------------------------------------------------------------------------------------
 
 type vfcfbOp struct {
-	Seq      int    `json:"seq"`
-	View     string `json:"view"`
-	Kind     string `json:"kind"` // upload delete get getrange exists attributes iter
-	Name     string `json:"name"`
-	Class    string `json:"class"` // meta deletion-mark no-compact-mark index chunks listing other
-	Mutating bool   `json:"mutating"`
-	Failed   bool   `json:"failed,omitempty"`
-	MutSeq   int    `json:"mut_seq,omitempty"`
-	ReadSeq  int    `json:"read_seq,omitempty"`
+	applyThenFail bool
+	Seq           int    `json:"seq"`
+	View          string `json:"view"`
+	Kind          string `json:"kind"` // upload delete get getrange exists attributes iter
+	Name          string `json:"name"`
+	Class         string `json:"class"` // meta deletion-mark no-compact-mark index chunks listing other
+	Mutating      bool   `json:"mutating"`
+	Failed        bool   `json:"failed,omitempty"`
+	MutSeq        int    `json:"mut_seq,omitempty"`
+	ReadSeq       int    `json:"read_seq,omitempty"`
 }
 
 var vfcfbErrCrash = errors.New("vfcfb: process crashed (fail-stop)")
@@ -94,11 +96,17 @@ type vfcfbCore struct {
 	failReadSeq int // the failReadSeq-th read of a fault view fails once (0 = never)
 	failReadErr error
 	failedRead  *vfcfbOp
-	afterMut    func(op vfcfbOp) // online invariant checker; runs after the mutation is applied, serialised
-	checkMu     sync.Mutex
-	lastMod     map[string]time.Time           // served LastModified per object name (overrides the in-memory bucket's)
-	noLastMod   bool                           // serve no LastModified at all
-	jitter      func(op vfcfbOp) time.Duration // optional latency of a successful read, a pure function of the operation (schedule diversity at the client boundary)
+	// transient faults (one operation fails once, every later operation works):
+	transMut       int    // the transMut-th mutating operation ...
+	transMutMode   string // ... "lost": is not applied and fails; "applied": is applied but reported as failed
+	transOtherRead int    // the transOtherRead-th read of the views that are NOT fault views fails once
+	otherReadSeq   int
+	transHit       *vfcfbOp
+	afterMut       func(op vfcfbOp) // online invariant checker; runs after the mutation is applied, serialised
+	checkMu        sync.Mutex
+	lastMod        map[string]time.Time           // served LastModified per object name (overrides the in-memory bucket's)
+	noLastMod      bool                           // serve no LastModified at all
+	jitter         func(op vfcfbOp) time.Duration // optional latency of a successful read, a pure function of the operation (schedule diversity at the client boundary)
 }
 
 func vfcfbNew() *vfcfbCore {
@@ -117,6 +125,26 @@ func (c *vfcfbCore) reset() {
 	c.log = nil
 	c.failStopMut, c.stopped, c.onStop = 0, false, nil
 	c.failReadSeq, c.failReadErr, c.failedRead = 0, nil, nil
+	c.transMut, c.transMutMode, c.transOtherRead, c.otherReadSeq, c.transHit = 0, "", 0, 0, nil
+}
+
+// armTransient arms one transient fault: mutating operation number mut ("lost" / "applied") or read number otherRead of the non-fault views.
+func (c *vfcfbCore) armTransient(mut int, mode string, otherRead int) {
+	c.mu.Lock()
+	c.transMut, c.transMutMode, c.transOtherRead, c.transHit = mut, mode, otherRead, nil
+	c.mu.Unlock()
+}
+
+func (c *vfcfbCore) transientHit() *vfcfbOp {
+	c.mu.Lock()
+	defer c.mu.Unlock()
+	return c.transHit
+}
+
+func (c *vfcfbCore) otherReads() int {
+	c.mu.Lock()
+	defer c.mu.Unlock()
+	return c.otherReadSeq
 }
 
 // armReadFault makes the n-th read of the fault views fail once with err (under the core's lock: the code under test may have
@@ -174,6 +202,21 @@ func (c *vfcfbCore) begin(v *vfcfbView, kind, name string, mutating bool) (vfcfb
 			c.stopped = true
 			stopNow = c.onStop
 			err = vfcfbErrCrash
+		} else if c.transMut > 0 && c.mutSeq == c.transMut {
+			if c.transMutMode == "applied" {
+				op.applyThenFail = true
+			} else {
+				err = vfcfbErrTransient
+			}
+			cp := op
+			c.transHit = &cp
+		}
+	case !v.faultReads && v.name != "setup":
+		c.otherReadSeq++
+		if c.transOtherRead > 0 && c.otherReadSeq == c.transOtherRead {
+			err = vfcfbErrTransient
+			cp := op
+			c.transHit = &cp
 		}
 	case v.faultReads:
 		c.readSeq++
@@ -250,6 +293,9 @@ func (v *vfcfbView) Upload(ctx context.Context, name string, r io.Reader, opts .
 		return err
 	}
 	v.core.done(op)
+	if op.applyThenFail {
+		return vfcfbErrTransient
+	}
 	return nil
 }
 
@@ -268,6 +314,9 @@ func (v *vfcfbView) Delete(ctx context.Context, name string) error {
 	delete(v.core.lastMod, name)
 	v.core.mu.Unlock()
 	v.core.done(op)
+	if op.applyThenFail {
+		return vfcfbErrTransient
+	}
 	return nil
 }
 
